@@ -930,6 +930,59 @@ def run(pid, tier, replay=None):
         rc_ = wireforms.stage(chk, quick, rng, pid)
         if rc_:
             return rc_
+        # ---- readers of a chain state leave it as it is: the wallet building spends (twice, the first one still unconfirmed), the balance
+        #      query, the miner's block assembly, the fork listing -- afterwards every stored block's unspent outputs and per-key balances
+        #      (value and reference list) project to what they projected to before
+        import skepticoin.wallet as W_
+        import skepticoin.consensus as c_
+        from skepticoin.signing import SECP256k1PublicKey as PK_
+        sk.apply_cfg(cfg_model)
+        rfacts = []
+        for i in range(6 if quick else 60):
+            w_r = sk.World(cfg_model, keys, tag=b"rd%d" % i)
+            rec_r = ledger_drv.Recorder(w_r, 7000 + i, full=False, snapshots=False)
+            rec_r.start(w_r.make_genesis(miner=rng.choice([1, 2])))
+            rt_r = RandomTree(w_r, rec_r, rng, nkeys=3, p_mut=0.0)
+            for _ in range(rng.randint(4, 9)):
+                rt_r.step()
+            cs_r = rec_r.cs
+
+            def proj(cs_):
+                out = {}
+                for h_ in cs_.block_by_hash:
+                    u_ = sorted((r.hash, r.index, o.value, o.public_key.public_key) for r, o in cs_.unspent_transaction_outs_by_hash[h_].items())
+                    try:
+                        b_ = sorted((pk.public_key, bal.value, tuple(sorted((r.hash, r.index) for r in bal.output_references)))
+                                    for pk, bal in cs_.public_key_balances_by_hash[h_].items())
+                    except Exception as e_:
+                        b_ = repr(e_)
+                    out[h_] = (u_, b_)
+                return out
+            before = proj(cs_r)
+            wal = W_.Wallet.empty()
+            for k_ in (1, 2, 3):
+                wal.keypairs[keys.pub[k_]] = keys.sk[k_].to_string()
+                wal.unused_public_keys.append(keys.pub[k_])
+            notes = []
+            for amount in (1, 2, 1):
+                try:
+                    W_.create_spend_transaction(wal, cs_r, amount, 0, keys.public_key(3), keys.public_key(2))
+                    notes.append("tx")
+                except Exception as e_:
+                    notes.append(type(e_).__name__)
+            try:
+                wal.get_balance(cs_r)
+                cs_r.forks()
+                c_.construct_block_pow_evidence_input(cs_r, [], PK_(keys.pub[1]), cs_r.head().timestamp + 1, b"", 1)
+            except Exception as e_:
+                notes.append("reader raised %r" % e_)
+            rfacts.append({"clause": "C03:chain_state_snapshot_changed_by_a_reader", "holds": proj(cs_r) == before, "what": "readers on a %d-block tree: %s" % (len(cs_r.block_by_hash), notes)})
+            chk.case(("readers", i), nontrivial=notes.count("tx") >= 2)
+        from harness import tracecheck as _tc
+        vrf, rrf = _tc.run("TraceFacts", rfacts, {}, ids=[1], workers=1, timeout=300)
+        chk.traces_validated += 1
+        for (line, clause) in tlc.tagged(rrf, "FINDING")[:3]:
+            chk.violation(clause, {"run": rfacts[line - 1]["what"]}, {"clause": clause})
     if pid in ("C01", "C02", "C05"):
         # ---- the verdict of full validation is a function of (block, chain, clock) -- also while the miner's thread assembles a candidate
         #      from the same chain state and a pending transaction (Interfere.tla; preemption-point exploration on real threads)
